@@ -113,7 +113,6 @@ func run(p *Property, tier string, seed int, repo, verif string) int {
 	variants := []loadOpts{{Dir: repo}}
 	if tier == "thorough" {
 		variants = append(variants,
-			loadOpts{Dir: repo, Tests: true},
 			loadOpts{Dir: repo, GOOS: "windows", GOARCH: "amd64"},
 			loadOpts{Dir: repo, GOOS: "linux", GOARCH: "riscv64"},
 		)
